@@ -225,6 +225,7 @@ func runC11(c *fw.Ctx) {
 	c11Golden(c)
 	c11Chain(c, g, known, model)
 	c11PolicyDirected(c, g, known, model)
+	c11SpecFields(c, g, ts)
 	res.CountN("types", len(ts))
 	res.CountN("types-with-generated-schema", len(known))
 	c11Compare(c, model)
